@@ -184,6 +184,7 @@ pub struct CheckCfg {
     pub workers: usize,
     pub determinism: bool,
     pub collect_codes: bool,
+    pub only: Option<Vec<u64>>,
 }
 
 pub struct CheckResult {
@@ -372,7 +373,11 @@ pub fn check(cfg: &CheckCfg) -> i32 {
     let corpus = load_corpus(&corpus_path());
     let findings = load_findings();
     let opts = ExecOpts { open_findings: findings.clone(), ..Default::default() };
-    let (AggOut(mut agg), suspects) = run_batch(cfg, (0..cfg.runs).collect());
+    let indices: Vec<u64> = match &cfg.only {
+        Some(v) => v.clone(),
+        None => (0..cfg.runs).collect(),
+    };
+    let (AggOut(mut agg), suspects) = run_batch(cfg, indices);
     let wall_runs = t0.elapsed().as_secs_f64();
 
     let mut harness_errors: Vec<String> = agg.harness.clone();
@@ -643,6 +648,38 @@ fn minimize_isolated(run: &Run, hang: bool) -> Run {
             best = c;
         }
     }
+    // fold the writes into the project when that keeps the failure, then drop declarations
+    {
+        let mut c = best.clone();
+        c.project.files = crate::exec::final_fs(&c);
+        c.ops.retain(|o| !matches!(o, Op::Write { .. } | Op::WritePrefix { .. } | Op::Delete { .. }));
+        if !c.ops.is_empty() && bad(&c) {
+            best = c;
+        }
+    }
+    let files: Vec<String> = best.project.files.keys().cloned().collect();
+    for f in files {
+        loop {
+            if start.elapsed() > Duration::from_secs(240) {
+                break;
+            }
+            let content = best.project.files[&f].clone();
+            let Some(items) = crate::edits::items(&f, &content) else { break };
+            let mut shrunk = false;
+            for it in items.iter().rev() {
+                let mut c = best.clone();
+                c.project.files.insert(f.clone(), format!("{}{}", &content[..it.lo], &content[it.hi..]));
+                if bad(&c) {
+                    best = c;
+                    shrunk = true;
+                    break;
+                }
+            }
+            if !shrunk {
+                break;
+            }
+        }
+    }
     best
 }
 
@@ -706,7 +743,7 @@ pub fn read_all(mut r: impl Read) -> String {
 
 /// Determinism self-test: every run index twice, in different worker processes / worker counts.
 pub fn determinism(property: &str, tier: &str, runs: u64) -> i32 {
-    let mk = |workers| CheckCfg { property: property.to_string(), tier: tier.to_string(), runs, workers, determinism: true, collect_codes: false };
+    let mk = |workers| CheckCfg { property: property.to_string(), tier: tier.to_string(), runs, workers, determinism: true, collect_codes: false, only: None };
     let (AggOut(a), s1) = run_batch(&mk(16), (0..runs).collect());
     let (AggOut(b), s2) = run_batch(&mk(3), (0..runs).rev().collect());
     let mut diff = 0;
